@@ -6,6 +6,7 @@ import EinxModel.Driver.Solve
 import EinxModel.Driver.Cse
 import EinxModel.Driver.CseTrees
 import EinxModel.Driver.Cache
+import EinxModel.Driver.CacheConc
 import EinxModel.Driver.Concurrent
 import EinxModel.Driver.IR
 import EinxModel.Driver.Order
@@ -31,6 +32,7 @@ def dispatch (j : Json) : R Json := do
   | "sched" | "serial_outcomes" | "explore" => Einx.Driver.Concurrent.handle j
   | "notation" => Einx.Driver.Notation.handle j
   | "cache-table" | "freeze" | "pyeq" | "pyhash" | "memo" | "stack" => Einx.Driver.Cache.handle j
+  | "cache_sched" | "cache_explore" => Einx.Driver.CacheConc.handle j
   | "solve" | "checksat" | "checkaxes" => Einx.Driver.Solve.handle j
   | "shorthand" => Einx.Driver.Shorthand.handle j
   | "value_range" => Einx.Driver.Cse.handle j
